@@ -113,6 +113,76 @@ def self_validate(prop: str, base: Ctx) -> dict:
     return res
 
 
+def _corpus_worker(args):
+    prop, kind, name, path = args
+    try:
+        from .patchapply import overlay_of
+        tree = SourceTree(REPO)
+        overlay = overlay_of(tree, open(path, encoding="utf-8", errors="replace").read())
+        if overlay is None:
+            return (kind, name, "inapplicable", [], [])
+        ctx = run_rules(prop, overlay)
+        viol = [(o.rule, o.key, o.file, o.line, o.msg[:200]) for o in ctx.by(VIOLATION)]
+        errs = [(o.rule, o.key, o.file, o.line, o.msg[:200]) for o in ctx.by(UNRECOGNISED) + ctx.by(MISSING)]
+        return (kind, name, "ran", viol, errs)
+    except Exception as e:
+        return (kind, name, "crash", [], [("ENGINE", "", "", 0, "".join(traceback.format_exception_only(type(e), e)).strip())])
+
+
+def corpus_validate(prop: str, base: Ctx) -> dict:
+    """Stored corpora, analysed as in-memory overlays of today's tree (sa/patchapply.py; nothing is written to disk):
+    seeded/<prop>*/patch.diff -- changes by independent authors that break <prop> (verified with a failing demonstration): each must be
+    reported; benign/*/*/*/patch.diff -- behaviour-preserving refactors by independent authors (generated output byte-identical): each must
+    leave this check silent.  corpus_expect.json lists the exceptions measured on the committed machinery (open items, see DESIGN)."""
+    exp_path = os.path.join(VERIF, "corpus_expect.json")
+    exp = json.load(open(exp_path)) if os.path.isfile(exp_path) else {}
+    open_benign = {k for k, v in exp.get("benign_open", {}).items() if prop in v}
+    unrep = set(exp.get("seed_unreported", []))
+    jobs = []
+    sroot = os.path.join(VERIF, "seeded")
+    if os.path.isdir(sroot):
+        for d in sorted(os.listdir(sroot)):
+            pth = os.path.join(sroot, d, "patch.diff")
+            if d[:3] == prop and os.path.isfile(pth):
+                jobs.append((prop, "seed", d, pth))
+    broot = os.path.join(VERIF, "benign")
+    if os.path.isdir(broot):
+        for dp, dn, fn in os.walk(broot):
+            dn.sort()
+            if "patch.diff" in fn:
+                jobs.append((prop, "benign", os.path.relpath(dp, broot), os.path.join(dp, "patch.diff")))
+    res = {"seeds_total": 0, "seeds_reported": 0, "seeds_known_unreported": [], "benign_total": 0, "benign_silent": 0, "benign_known_open": [],
+           "inapplicable": [], "failures": []}
+    if not jobs:
+        return res
+    base_keys = {(o.rule, o.key) for o in base.by(VIOLATION)}
+    with ProcessPoolExecutor(max_workers=min(16, len(jobs))) as ex:
+        out = list(ex.map(_corpus_worker, jobs, chunksize=2))
+    for kind, name, state, viol, errs in out:
+        if state == "inapplicable":
+            res["inapplicable"].append(name)
+            continue
+        new = [v for v in viol if (v[0], v[1]) not in base_keys]
+        if kind == "seed":
+            res["seeds_total"] += 1
+            if new:
+                res["seeds_reported"] += 1
+            elif name in unrep:
+                res["seeds_known_unreported"].append(name)
+            else:
+                res["failures"].append({"seed": name, "state": state, "errors": errs[:2], "why": "stored seeded change (a verified real defect) is not reported"})
+        else:
+            res["benign_total"] += 1
+            if not new and not errs:
+                res["benign_silent"] += 1
+            elif name in open_benign:
+                res["benign_known_open"].append(name)
+            else:
+                res["failures"].append({"benign": name, "state": state, "new_violations": new[:2], "errors": errs[:2],
+                                        "why": "stored behaviour-preserving refactor raises an alarm"})
+    return res
+
+
 def alpha_invariance(prop: str, base: Ctx, suffix: str = "_v") -> list:
     """Whole-tree benign variant: every local of every function renamed (sa/alpha.py).  -> obligations that are not discharged
     there although they are on the real tree (keys compared modulo the suffix)."""
@@ -175,6 +245,9 @@ def main(argv=None) -> int:
             for x in al[:5]:
                 sv["failures"].append({"benign": "all-locals-renamed", "state": "ran", "new_violations": [x], "errors": [],
                                        "why": "renaming local variables (behaviour preserved) changed a verdict: the rule depends on what a local is called"})
+            cv = corpus_validate(prop, ctx)
+            sv["corpus"] = {k: v for k, v in cv.items() if k != "failures"}
+            sv["failures"].extend(cv["failures"])
             from .alpha import VARIANTS, transform
             sv["whole_tree_variants"] = {}
             for kind in VARIANTS:
@@ -279,7 +352,10 @@ def main(argv=None) -> int:
               f"{sv['benign_silent']}/{sv['benign_total']} silent ({sv['benign_inapplicable']} inapplicable)"
               + (f"; inapplicable: {', '.join(sv['inapplicable'])}" if sv["inapplicable"] else "")
               + f"; all-locals-renamed variant: {sv.get('alpha_renaming_new_alarms', 0)} new alarms"
-              + f"; whole-tree variants {sv.get('whole_tree_variants', {})}")
+              + f"; whole-tree variants {sv.get('whole_tree_variants', {})}"
+              + (f"; stored corpus: seeded changes {sv['corpus']['seeds_reported']}/{sv['corpus']['seeds_total']} reported"
+                 f" ({len(sv['corpus']['seeds_known_unreported'])} listed open), behaviour-preserving refactors {sv['corpus']['benign_silent']}/{sv['corpus']['benign_total']} silent"
+                 f" ({len(sv['corpus']['benign_known_open'])} listed open), {len(sv['corpus']['inapplicable'])} not applicable to this tree" if "corpus" in sv else ""))
     for l in lines:
         print(l)
     if unlisted:
